@@ -46,6 +46,7 @@ extern "C" void stub_to_string_u(std::string* out, unsigned v) { new (out) std::
 static SQLiteBuildDB* newDB(bool recreate, uint32_t client) { SQLiteBuildDB* d = new SQLiteBuildDB("p", client, recreate); d->attachDelegate(new HDelegate); return d; }
 static void freshSchema(uint32_t client) { m_info.exists = true; m_info.tables = true; m_info.version = 17; m_info.client_version = client; m_info.iteration = 0; }
 static uint64_t dbits(double d) { uint64_t u; memcpy(&u, &d, 8); return u; }
+extern "C" void vf_havoc_scalars_SQLiteBuildDB(void*);
 extern "C" void harness_db(void) {
   // Key bytes are CONCRETE per query (VF_KS selects a triple): which table row a key selects must be
   // concrete for the encoding to stay small.  The triples contain NUL bytes, a key that is a prefix of
@@ -79,6 +80,12 @@ extern "C" void harness_db(void) {
   HRule& rule = *new HRule(KeyType((const char*)g_keyBytes[0], g_keyLen[0]));
   SQLiteBuildDB* w = newDB(true, client);
   VF_ASSERT(w->buildStarted(&err), "the build transaction starts");
+#ifdef VF_HAVOC
+  // T3 as an inductive step: the result is written from ANY state the database object's own integer members can be in, not only the
+  // state of a freshly opened object (a counter that makes every n-th write commit is then at n-1); the members this harness knows
+  // are re-established, see prep_ir.py "state havoc"
+  vf_havoc_scalars_SQLiteBuildDB(w); w->clientSchemaVersion = client; w->recreateOnUnmatchedVersion = true;
+#endif
   m_trackOps = true;
   bool ok = w->setRuleResult(k0, rule, in, &err);
   m_trackOps = false;
